@@ -2,7 +2,7 @@
 import ast
 
 from ..model import AnalysisError, unparse, walk_local
-from ..paths import Evaluator, is_c, show, C, S, NONE, subterms, State
+from ..paths import Evaluator, is_c, show, C, S, NONE, subterms, State, substitute
 from ..shapes import ShapeEval, Undecided, Raises
 from ..effects import MutationAnalysis
 from .common import trace_tail
@@ -74,11 +74,40 @@ def run(ctx):
                                   'emd.support.ensure_1d_with_singleton', 'emd.support.ensure_2d'], 'input validation')
 
 
+def _contract(name, shape):
+    """The documented contract of the ensure_* routines as a function of the input shape."""
+    nd = len(shape)
+    if name == 'ensure_2d':
+        return (shape[0], 1) if nd == 1 else shape
+    if name == 'ensure_vector':
+        if nd == 1:
+            return shape
+        if nd == 2 and shape[1] == 1:
+            return (shape[0],)
+        return 'raise'
+    if name == 'ensure_1d_with_singleton':
+        if nd == 1:
+            return (shape[0], 1)
+        if nd == 2:
+            return shape if shape[1] == 1 else 'raise'
+        return (shape[0], 1) if all(d == 1 for d in shape[1:]) else 'raise'
+    raise KeyError(name)
+
+
 def rule_shape_classes(ctx, rid, names=None):
     P = ctx.P
+    import itertools
     for name, table in ORACLE.items():
         if names is not None and name not in names:
             continue
+        # the hand-written table must agree with the contract function (guards against a typo in either)
+        assert all(_contract(name, sh) == want for sh, want in table.items()), name
+        if ctx.tier == 'thorough':
+            # every shape with 1..3 axes of extent 1, 2 or 4 (39 shapes per routine)
+            table = dict(table)
+            for nd in (1, 2, 3):
+                for sh in itertools.product((1, 2, 4), repeat=nd):
+                    table.setdefault(sh, _contract(name, sh))
         fi = P.func('emd.support.' + name)
         x = S('x?')
         ev = Evaluator(P)
@@ -162,8 +191,11 @@ def _layout_only(t, inp):
     if t[0] == 'attr' and t[2] == 'T':
         return _layout_only(t[1], inp)
     if t[0] == 'meth' and t[1] in LAYOUT_METHS:
-        if any(inp in set(subterms(a)) for a in t[3]):
-            return t
+        # the arguments may use the array's own shape / size, never its values
+        for a in t[3]:
+            masked = substitute(a, {('attr', inp, k): C(0) for k in ('shape', 'ndim', 'size')})
+            if inp in set(subterms(masked)):
+                return t
         return _layout_only(t[2], inp)
     if t[0] == 'call' and t[1] in LAYOUT_CALLS and t[2]:
         kw = dict(t[3])
@@ -323,6 +355,21 @@ def rule_length_checks(ctx, rid):
         ([(5, 2), (6, 2)], 0, True), ([(5, 2), (6, 2)], 1, False), ([(5, 2), (5, 2), (5, 3)], 1, True),
         ([(5,), (5,), (5,), (7,)], 0, True), ([(4, 3), (4, 3), (4, 3)], None, False),
     ]
+    if ctx.tier == 'thorough':
+        import itertools
+        base = [(3,), (4,), (3, 2), (3, 5), (4, 2)]
+        seen = {(tuple(map(tuple, sh)), d) for sh, d, mm in CASES}
+        for k in (2, 3):
+            for combo in itertools.product(base, repeat=k):
+                if len({len(x) for x in combo}) != 1:
+                    continue                       # arrays of different rank: indexing the shorter shape raises
+                for dim in (None, 0) + ((1,) if len(combo[0]) == 2 else ()):
+                    key = (tuple(combo), dim)
+                    if key in seen:
+                        continue
+                    seen.add(key)
+                    sel = (lambda s_: s_) if dim is None else (lambda s_: (s_[dim],))
+                    CASES.append((list(combo), dim, len({sel(x) for x in combo}) != 1))
     for shapes, dim, mismatch in CASES:
         c = 'ensure_equal_dims(%s, dim=%s) %s' % (shapes, dim, 'raises' if mismatch else 'accepts')
         taken = []
@@ -357,38 +404,50 @@ ENSURE = ('emd.support.ensure_equal_dims', 'emd.support.ensure_2d', 'emd.support
 
 
 def rule_ensure_sites(ctx, rid, only=None):
-    """Every call of an ensure_* routine is well formed: `to_check` is a literal list / tuple of arrays (no string
-    among them), `names` a literal list / tuple of as many strings, `func_name` a string.  (Swapped arguments make
-    the routine validate the strings and name the arrays: an exception on valid input, or no check at all.)"""
+    """Every call of an ensure_* routine is well formed on the evaluated paths: `to_check` is a list / tuple of
+    arrays (no string among them), `names` a list / tuple of as many strings, `func_name` a string.  (Swapped
+    arguments make the routine validate the strings and name the arrays: an exception on valid input, or no check
+    at all.)  Arguments built in variables or helpers are followed; a construction that cannot be read is skipped."""
     P = ctx.P
     n = 0
+    funcs = []
     for q, fi in sorted(P.funcs.items()):
-        if fi.module.name not in NUMERIC or (only is not None and q not in only):
+        if fi.module.name not in NUMERIC or (only is not None and q not in only) or fi.parent is not None:
             continue
-        for c in P.calls_in(fi):
-            ca = P.resolve_callee(fi.module, fi, c.func)
-            if ca.kind != 'repo' or ca.dotted not in ENSURE:
-                continue
+        if not any(P.resolve_callee(fi.module, fi, c.func).dotted in ENSURE for c in P.calls_in(fi)):
+            continue
+        funcs.append(fi)
+    for fi in funcs:
+        recs = {}
+
+        def hook(ca, bound, star, st, e, recs=recs):
+            if ca.kind == 'repo' and ca.dotted in ENSURE:
+                recs.setdefault((id(e), ca.func.name, getattr(e, 'lineno', 0)), []).append(dict(bound))
+            return None
+        try:
+            Evaluator(P, callee_hook=hook).run(fi, context=MULTI_CTX.get(fi.qualname, {}))
+        except AnalysisError:
+            continue
+        for (nid, fname, line), bounds in sorted(recs.items(), key=lambda kv: kv[0][2]):
             n += 1
-            b = P.bind(c.args, c.keywords, ca)
-            tc, nm, fn = b.args.get('to_check'), b.args.get('names'), b.args.get('func_name')
-            cst = '%s call on line %d is well formed' % (ca.func.name, c.lineno)
+            cst = '%s call is well formed' % fname
             why = None
-            if not isinstance(tc, (ast.List, ast.Tuple)) or not tc.elts:
-                why = 'to_check is %s, not a list of arrays' % (unparse(tc)[:40] if tc is not None else 'missing')
-            elif any(isinstance(x, ast.Constant) and isinstance(x.value, str) for x in tc.elts):
-                why = 'to_check holds string constants (%s): the arrays and their names are swapped' % unparse(tc)[:40]
-            elif not isinstance(nm, (ast.List, ast.Tuple)) or not all(
-                    isinstance(x, ast.Constant) and isinstance(x.value, str) for x in nm.elts):
-                why = 'names is %s, not a list of strings' % (unparse(nm)[:40] if nm is not None else 'missing')
-            elif len(nm.elts) != len(tc.elts):
-                why = '%d arrays but %d names' % (len(tc.elts), len(nm.elts))
-            elif not (isinstance(fn, ast.Constant) and isinstance(fn.value, str)):
-                why = 'func_name is %s' % (unparse(fn)[:30] if fn is not None else 'missing')
+            for bnd in bounds:
+                tc, nm, fn = bnd.get('to_check'), bnd.get('names'), bnd.get('func_name')
+                if tc is None or tc[0] not in ('list', 'tuple') or nm is None or nm[0] not in ('list', 'tuple'):
+                    continue            # built dynamically: not readable here
+                if any(is_c(x) and isinstance(x[1], str) for x in tc[1]):
+                    why = 'to_check holds string constants (%s): the arrays and their names are swapped' % show(tc)[:50]
+                elif not all(is_c(x) and isinstance(x[1], str) for x in nm[1]):
+                    why = 'names is %s, not a list of strings' % show(nm)[:50]
+                elif len(nm[1]) != len(tc[1]):
+                    why = '%d arrays but %d names' % (len(tc[1]), len(nm[1]))
+                elif fn is not None and is_c(fn) and not isinstance(fn[1], str):
+                    why = 'func_name is %s' % show(fn)[:30]
             if why:
-                ctx.violation(rid, fi, cst, why, node=c)
+                ctx.violation(rid, fi, cst, why + ' (line %d)' % line)
             else:
-                ctx.passed(rid, fi, cst, node=c)
+                ctx.passed(rid, fi, cst, '%d call state(s), line %d' % (len(bounds), line))
     ctx.cover['ensure_call_sites'] = n
 
 
